@@ -50,6 +50,73 @@ theorem isFailure_iff (regs : List Cond) (o : Outcome) :
       simp only [hn, false_or]
       simp [Bool.and_eq_true, List.any_eq_true]
 
+/-! ### builder calls with an empty target list
+
+`HandleErrors()` / `HandleErrorTypes()` with no targets configure **no condition**. The rule's first clause therefore still applies
+when such calls are all there is ("no conditions are configured and it carries an error"); next to real conditions they count as
+error handling having been configured. -/
+
+def Reg.conds (regs : List Reg) : List Cond := regs.filterMap (fun r => match r with | .cond c => some c | .noTargets => none)
+def Reg.inspects : Reg → Bool | .cond c => c.inspectsErrors | .noTargets => true
+
+theorem buildR_spec (regs : List Reg) :
+    ∀ b0 : Built, (regs.foldl registerR b0).conds = b0.conds ++ Reg.conds regs ∧
+      (regs.foldl registerR b0).errorsChecked = (b0.errorsChecked || regs.any Reg.inspects) := by
+  induction regs with
+  | nil => intro b0; simp [Reg.conds]
+  | cons r rs ih =>
+    intro b0
+    have := ih (registerR b0 r)
+    simp only [List.foldl_cons]
+    cases r with
+    | cond c =>
+      refine ⟨by rw [this.1]; simp [registerR, register, Reg.conds], by rw [this.2]; simp [registerR, register, Reg.inspects, Bool.or_assoc]⟩
+    | noTargets =>
+      refine ⟨by rw [this.1]; simp [registerR, Reg.conds], by rw [this.2]; simp [registerR, Reg.inspects]⟩
+
+/-- **the truth table for every list of builder calls**, empty target lists included -/
+theorem isFailureR_iff (regs : List Reg) (o : Outcome) :
+    isFailureR regs o = true ↔
+      (Reg.conds regs = [] ∧ o.err.isSome) ∨ (∃ c ∈ Reg.conds regs, Cond.matchesDoc c o = true) ∨
+      (o.err.isSome ∧ ∀ r ∈ regs, Reg.inspects r = false) := by
+  have hb := buildR_spec regs ⟨[], false⟩
+  simp only [isFailureR, buildR, isFailureB, hb.1, hb.2, List.nil_append, Bool.false_or]
+  cases hc : Reg.conds regs with
+  | nil =>
+    simp only [List.length_nil, if_true, List.not_mem_nil, false_and, exists_false, false_or, true_and]
+    constructor
+    · intro h; exact Or.inl h
+    · rintro (h | ⟨h, _⟩) <;> exact h
+  | cons c cs =>
+    simp only [List.length_cons, Nat.succ_ne_zero, if_false, reduceCtorEq, false_and, false_or]
+    by_cases h : (c :: cs).any (fun c => c.eval false o) = true
+    · simp only [h, if_true, true_iff]
+      left
+      simpa [eval_eq_matchesDoc] using h
+    · simp only [h, if_false]
+      have hn : ¬ ∃ c' ∈ c :: cs, Cond.matchesDoc c' o = true := by simpa [eval_eq_matchesDoc] using h
+      simp only [hn, false_or]
+      simp [Bool.and_eq_true, List.any_eq_true]
+
+theorem Reg.conds_map (cs : List Cond) : Reg.conds (cs.map Reg.cond) = cs := by
+  induction cs with
+  | nil => rfl
+  | cons c cs ih => simp only [Reg.conds, List.map_cons, List.filterMap_cons] at ih ⊢; rw [ih]
+
+theorem Reg.any_map (cs : List Cond) : (cs.map Reg.cond).any Reg.inspects = cs.any Cond.inspectsErrors := by
+  induction cs with
+  | nil => rfl
+  | cons c cs ih => simp only [List.map_cons, List.any_cons, Reg.inspects, ih]
+
+/-- a list of real conditions classifies as before: the extension changes nothing where no empty call occurs -/
+theorem isFailureR_conds (cs : List Cond) (o : Outcome) : isFailureR (cs.map Reg.cond) o = isFailure cs o := by
+  have h1 := buildR_spec (cs.map Reg.cond) ⟨[], false⟩
+  have h2 := build_spec cs ⟨[], false⟩
+  simp only [isFailureR, isFailure, buildR, build, isFailureB, h1.1, h1.2, h2.1, h2.2, Reg.conds_map, Reg.any_map]
+
+/-- an empty `HandleErrors()` alone leaves the default in force: errors are failures (what the second round-9 change to C12 breaks) -/
+example : isFailureR [.noTargets] ⟨0, some (.leaf 1 0)⟩ = true ∧ isFailureR [.noTargets, .cond (.result 1)] ⟨0, some (.leaf 1 0)⟩ = false := by decide
+
 /-- abort conditions: any match aborts; none configured means never abort -/
 theorem abort_iff (regs : List Cond) (o : Outcome) :
     isAbortable regs o = true ↔ ∃ c ∈ regs, Cond.matchesDoc c o = true := by
